@@ -32,6 +32,28 @@ CLAIMED.update({
         tech="deterministic simulation: corrupting transport on proof fields + real-chain reorgs, independent signature re-verification oracle"),
 })
 
+CLAIMED.update({
+    "C06": dict(cat="fault_enumeration", ref="DESIGN.md §3 C06",
+        text="Fault enumeration on top of seeded histories: for the target operation reached by a seeded history every persistence point it visits (each LMDB batch commit incl. key-index bumps, stored-transaction file pre/post) is enumerated with a crash (simulated process death by unwinding, handles dropped, wallet re-opened from its directory), a failing write, and for the stored-transaction file a set of truncation lengths. After each variant the wallet must open, every query must answer without panicking, reservations must be all-or-nothing, every pending entry must cancel, and the funds after cancelling everything must equal those of the fault-free twin run from the same directory snapshot. The set of points per operation is enumerated completely; the pre-states and operations are sampled.",
+        tech="deterministic simulation with crash-point enumeration: seeded pre-state, every persistence point x {crash, failing write, truncation}, fault-free twin as reference"),
+    "C07": dict(cat="exploration", ref="DESIGN.md §3 C07",
+        text="A Byzantine peer drives the real api::Foreign of victims in seeded mid-history states with harvested, mutated and forged slates, ids of the victim's pending (incl. late-locked) transactions, and build_coinbase requests naming existing outputs; before/after snapshots of outputs, log entries and private contexts must be unchanged except for exactly one unconfirmed output plus one receive entry per accepted slate; second deliveries must be refused. Replies that are validly counter-signed (finalize succeeds, or an unaltered honest reply) are outside the statement and not judged.",
+        tech="deterministic simulation: Byzantine peer on the foreign API (harvest / mutate / forge), before-after state-diff oracle"),
+    "C12": dict(cat="exploration", ref="DESIGN.md §3 C12",
+        text="Wire-tap and disk-tap oracle over seeded histories (every file incl. raw LMDB pages and every emitted slate searched for seeds, mnemonics and every private context's four secret values in six encodings), seed-file password checks against an independent PBKDF2+ChaCha20-Poly1305 implementation, crash/failing-write/truncation enumeration over change_password with the requirement that some seed file still decrypts to the original seed, and per-wallet uniqueness of public nonces and excesses across slates.",
+        tech="deterministic simulation: disk/wire tap with observer-known secrets, independent seed-file decryption, crash-point enumeration over the password change, nonce-uniqueness history check",
+        note="recover_from_mnemonic interruption is exercised only through its shared seed-file write path; see DESIGN.md"),
+    "C15": dict(cat="exploration", ref="DESIGN.md §3 C15",
+        text="Every output record a wallet ever commits is observed through a hook in Batch::save (counted when its LMDB batch commits, so records deleted later are seen too) across seeded multi-account histories with restarts, crashes and failing writes at persistence points; per wallet a key path may carry one output only (except the re-requested unconfirmed coinbase candidate); after a restore from seed and scan the next child index must exceed every index the simulator's own rewind finds on chain.",
+        tech="deterministic simulation: committed-save observer + crash injection, path-uniqueness history oracle, restore next-path check against chain truth"),
+    "C17": dict(cat="exploration", ref="DESIGN.md §3 C17",
+        text="Seeded histories with TTLs and cutoffs rewritten on the wire around the height the receiving wallet last observed; the oracle predicts from the pre-state (per-account observed heights) whether each receive/pay/finalize must be refused, must not be refused for expiry, or is left open, and checks after every successful refresh that exactly the wallet's own outstanding entries whose cutoff the tip has reached are cancelled with their inputs released.",
+        tech="deterministic simulation: on-the-wire cutoff rewriting relative to observed height, refusal/release oracle"),
+    "C19": dict(cat="exploration", ref="DESIGN.md §3 C19",
+        text="Model-based checking inside a stateful simulation: logs are produced by real histories under a virtual clock that jumps both ways (equal timestamps, creation order != id order, confirmation before creation), queries are aimed exactly at stored values, and every answer is compared with a three-valued reference filter written from the field documentation (required / forbidden / left open). The query-argument dimension is seeded sampling (labelled partial scope).",
+        tech="deterministic simulation with virtual clock: reference-model (three-valued filter) comparison of every query answer"),
+})
+
 NOT_YET = {
     "C08": "not applicable to this technique: encode/decode round-trips are pure functions of their input (no schedule, clock, fault, crash point or second party); deciding them needs structural input generation or proof, see DESIGN.md §4",
 }
